@@ -96,10 +96,13 @@ def run_case(case, ch: Choices) -> RunResult:
     _loc = [None]
 
     _odd_env = [None]
+    _user_cfg = [None]
 
     def run_child(*a, **kw):
         if _odd_env[0] is not None and "env" not in kw:
             kw["env"] = _odd_env[0]
+        if _user_cfg[0] is not None:
+            kw["env"] = dict(kw.get("env") or {}, **_user_cfg[0])
         # (only for projects whose non-ASCII text cannot reach the generated files: on this tree the package writer uses the
         # locale's encoding, so others fail under an ASCII locale - an observation outside the claimed properties)
         if _loc[0] is not None and world.get("locale_safe"):
@@ -150,6 +153,21 @@ def run_case(case, ch: Choices) -> RunResult:
                     st["crash_kind"] = ch.pick("env.crash_kind", ["crash", "enospc", "eio", "torn", "torn", "empty", "torn_anywhere", "enospc_anywhere"])
             envs.append(st)
             _loc[0] = (st.get("hashseed") or 0) + si if world.get("locale_safe") else None
+            _user_cfg[0] = None
+            if ((st.get("hashseed") or 0) + si) % 3 == 0:
+                # the user running this step has personal formatter settings (black's user-level file, an isort.cfg, an
+                # .editorconfig in the home directory): nothing of that may show in generated files
+                ucfg = os.path.join(base, "user_cfg_%d" % si)
+                os.makedirs(os.path.join(ucfg, "home", ".config"), exist_ok=True)
+                for pth_, txt_ in ((os.path.join(ucfg, "black"), "[tool.black]\nline-length = 44\nskip-string-normalization = true\nskip-magic-trailing-comma = true\n"),
+                                   (os.path.join(ucfg, "home", ".config", "black"), "[tool.black]\nline-length = 140\n"),
+                                   (os.path.join(ucfg, "isort.cfg"), "[settings]\nforce_single_line = true\nline_length = 50\n"),
+                                   (os.path.join(ucfg, "home", ".isort.cfg"), "[settings]\nforce_single_line = true\n"),
+                                   (os.path.join(ucfg, "home", ".editorconfig"), "root = true\n[*.py]\nindent_style = tab\nmax_line_length = 60\n")):
+                    with open(pth_, "w") as f_:
+                        f_.write(txt_)
+                _user_cfg[0] = {"XDG_CONFIG_HOME": ucfg, "HOME": os.path.join(ucfg, "home")}
+                res.bump("fault.user_level_formatter_settings_present")
             if _loc[0] is not None:
                 res.bump("fault.locale_of_the_generating_process_changed")
             root = os.path.join(base, "s%d" % si)
@@ -196,8 +214,13 @@ def run_case(case, ch: Choices) -> RunResult:
                     prior = "fresh"
             elif prior == "same_process_after_other":
                 # one interpreter first generates another project, then this one
-                others = [w for w in corpus.all_worlds() if w["id"] != world.get("id")]
-                other = others[((st.get("enum_seed") or 0) + (st.get("hashseed") or 0)) % len(others)]
+                k_ = (st.get("enum_seed") or 0) + (st.get("hashseed") or 0) + si
+                if k_ % 3:
+                    # two times out of three a project that exercises process-level machinery (see corpus.STATEFUL_NEIGHBOURS)
+                    others = [corpus.by_id(i_) for i_ in corpus.STATEFUL_NEIGHBOURS if i_ != world.get("id")]
+                else:
+                    others = [w for w in corpus.all_worlds() if w["id"] != world.get("id")]
+                other = others[(k_ // 3) % len(others)]
                 oroot = os.path.join(base, "s%d_other" % si)
                 om = worlds.materialize(other, oroot, corpus.corpus_partition(other, "schema") if other.get("layout") else None,
                                         corpus.corpus_partition(other, "queries") if other.get("layout") else None)
